@@ -62,6 +62,7 @@ pub mod ops {
     pub const PUSH_WHEN_FULL: u32 = 1 << 12;
     pub const UNLEASH: u32 = 1 << 13;
     pub const POLL_HOOK: u32 = 1 << 14;
+    pub const EXTEND: u32 = 1 << 15;
 }
 
 #[derive(Clone, Copy, PartialEq, Eq, Debug, Hash)]
@@ -153,6 +154,8 @@ pub enum Op {
     Stop,
     Push(usize, PushHow),
     PanicPush(usize, PushHow),
+    /// `extend` with two futures of the given spec (ordered queues)
+    Extend2(usize),
     Poll(bool),
     /// poll with a new task waker; the waker of the child is invoked while the collection clones
     /// (registers) that task waker
@@ -231,6 +234,7 @@ impl<'a> Run<'a> {
             Op::PanicPush(i, how) => {
                 format!("panicking push{}({})", if *how == PushHow::Front { "_front" } else { "" }, self.cfg.specs[*i].render())
             }
+            Op::Extend2(i) => format!("extend([{0}, {0}])", self.cfg.specs[*i].render()),
             Op::Poll(new) => format!("poll({})", if *new { "new task waker" } else { "same task waker" }),
             o => format!("{:?}", o),
         }
@@ -264,6 +268,15 @@ impl<'a> Run<'a> {
                         Some(n) => self.running(w) >= n,
                         None => false,
                     };
+                    if cfg.ops & ops::EXTEND != 0 && !cfg.specs.is_empty() {
+                        let room = match cfg.kind.bound() {
+                            Some(n) => n.saturating_sub(self.running(w)),
+                            None => usize::MAX,
+                        };
+                        if room >= 2 {
+                            m.push((Op::Extend2(0), costly(ops::EXTEND)));
+                        }
+                    }
                     if !full {
                         for i in 0..cfg.specs.len() {
                             // relay children need somebody to relay to
@@ -396,6 +409,17 @@ impl<'a> Run<'a> {
             Op::Stop => {}
             Op::Push(i, how) => self.do_push(*i, *how, false),
             Op::PanicPush(i, how) => self.do_push(*i, *how, true),
+            Op::Extend2(i) => {
+                let spec = &self.cfg.specs[*i];
+                let a = self.new_child(spec);
+                let b = self.new_child(spec);
+                if self.subj.as_mut().unwrap().extend(&[a, b]).is_some() {
+                    for id in [a, b] {
+                        w(|w| w.accept(id));
+                        self.model.push_back(id);
+                    }
+                }
+            }
             Op::Poll(new) => self.do_poll(*new),
             Op::PollHook(c) => {
                 let next = w(|w| w.next_task_waker + 1);
